@@ -21,6 +21,9 @@ type putOp struct {
 	meta     bool
 	name     string
 	zone     string
+	// nullName: putNamed is given Null where the name belongs (name is "" then): neither a name nor the empty
+	// string, the call cannot go through (seeded change C05-9: an unnamed container charged the alias fee)
+	nullName bool
 	signers  []world.SignerSpec
 	alpha    bool
 	sdesc    string
@@ -36,6 +39,9 @@ func (e *env) domainOf(name, zone string) string {
 // predictPut: "" when the put must succeed, otherwise the reason of refusal.
 func (e *env) predictPut(o *putOp) string {
 	cidh := hexs(o.blob.cid)
+	if o.nullName {
+		return "null-name"
+	}
 	if e.m.dead[cidh] {
 		return "tombstoned"
 	}
@@ -104,7 +110,11 @@ func (e *env) invokePut(o *putOp) *world.TxResult {
 	case "putmeta":
 		return e.w.Invoke(o.signers, e.cn, "put", o.blob.data, o.sig, o.pub, tok, o.meta)
 	case "putnamed":
-		return e.w.Invoke(o.signers, e.cn, "putNamed", o.blob.data, o.sig, o.pub, tok, o.name, o.zone)
+		var nm any = o.name
+		if o.nullName {
+			nm = nil
+		}
+		return e.w.Invoke(o.signers, e.cn, "putNamed", o.blob.data, o.sig, o.pub, tok, nm, o.zone)
 	}
 	return e.w.Invoke(o.signers, e.cn, "put", o.blob.data, o.sig, o.pub, tok)
 }
@@ -513,7 +523,12 @@ func runC04(b *runner.Batch) {
 		}
 		switch k := b.Rng.IntN(20); {
 		case k < 9:
-			e.doPut(e.genPut(4), "C04")
+			o := e.genPut(4)
+			if o.kind == "putnamed" && b.Rng.IntN(10) == 0 {
+				o.nullName, o.name = true, ""
+				b.Hit("putNamed-with-a-null-name")
+			}
+			e.doPut(o, "C04")
 		case k < 14:
 			e.doDelete(e.pickID(), e.pickAlpha(8))
 		default:
